@@ -322,6 +322,9 @@ func checkC07(r *Run) propMeta {
 	checkRangeLiteral(r, vm, g)
 	checkNumberLanguage(r, g)
 	checkTerminalsByType(r, vm)
+	checkBareKeyKeywords(r, g)
+	checkKeyedStores(r)
+	r.Floor("C07-R6-bare-key-keywords", 1)
 	r.Floor("C07-R1-pair", 150)
 	r.Floor("C07-R1-info-terminal", 10)
 	r.Floor("C07-R2-emitter-field", 60)
